@@ -223,6 +223,10 @@ def describe_rv(body, rv, depth=6, at=None):
         op = {'AddWithOverflow': 'Add', 'SubWithOverflow': 'Sub', 'MulWithOverflow': 'Mul'}.get(op, op)
         a = describe(body, rv['a'], depth - 1, at=at)
         b = describe(body, rv['b'], depth - 1, at=at)
+        if op in ('Eq', 'Ne') and (a in ('True', 'False') or b in ('True', 'False')):
+            # `x == false`, `x != true`: a (possibly negated) copy of x - read like `!x` / `x`
+            c, x = (b, a) if b in ('True', 'False') else (a, b)
+            return 'Not(%s)' % x if (c == 'False') != (op == 'Ne') else x
         if op in COMMUTATIVE:
             a, b = sorted((a, b))
         elif op in ('Gt', 'Ge'):
